@@ -32,4 +32,6 @@ for p in "$@"; do
 done
 rm -f /tmp/seedchk.$$
 git -C /repo checkout -- .
+# the evidence files now describe the run on the CHANGED tree: put the committed ones (unchanged tree) back
+git -C /verif checkout -- evidence/ 2>/dev/null
 cat $out/checks.txt
